@@ -55,6 +55,11 @@ fn optimal_deviations<const PLAYER_ONE: bool>(
         .collect();
     let mut search_queue = vec![(start, 1.0)];
     while let Some((node, reach)) = search_queue.pop() {
+        // a reach probability that underflowed to zero can't be normalized by: treat the node as
+        // unreached, like nodes behind zero probability actions
+        if reach <= 0.0 {
+            continue;
+        }
         match node {
             Node::Terminal(_) => (),
             Node::Chance(chance) => {
